@@ -6,6 +6,7 @@ import AfkakProofs.Group.OneJoin
 import AfkakProofs.Group.HbStable
 import AfkakProofs.Group.Compose
 import AfkakProofs.Group.StopCalled
+import AfkakProofs.Group.JoinLast
 import AfkakProps.Open.C16
 /-!
 # C16 — generation fencing: no partition consumer outlives its group generation
@@ -37,8 +38,9 @@ theorem C16_starts_committed (cfg : Cfg) (evs : List Ev) : startsCommitted (toMS
   startsCommitted_run cfg evs
 
 /-- Every successful join reply the member processes replaces its member id and generation by the
-    reply's: together with `C16_starts_committed` the identity handed to consumers is never stale
-    (monitor `joinAdopted` on every model trace). -/
+    reply's, as seen in the snapshot after THAT step (monitor `joinAdopted` on every model trace).
+    That the ids are still the reply's when the consumers are started (nothing rewrites them between
+    the join and the sync reply) is the open statement `C16_starts_with_join_ids`. -/
 theorem C16_join_adopted (cfg : Cfg) (evs : List Ev) : joinAdopted (toMSteps (run cfg evs)) = true :=
   joinAdopted_run cfg evs
 
@@ -126,12 +128,34 @@ theorem C16_heartbeat_only_stable (cfg : Cfg) (evs : List Ev) : heartbeatOnlySta
 theorem C16_no_join_after_stop_called (cfg : Cfg) (evs : List Ev) : noJoinAfterStopCalled (toMSteps (run cfg evs)) = true :=
   noJoinAfterStopCalled_run cfg evs
 
+/-- Every heartbeat is sent by a member that is neither stopping nor wanting a rejoin, and quotes
+    the member's CURRENT generation and member id (monitor `heartbeatIds`, with the snapshot before
+    the step). -/
+theorem C16_heartbeat_ids (cfg : Cfg) (evs : List Ev) : heartbeatIds (toMSteps (run cfg evs)) = true :=
+  heartbeatIds_run cfg evs
+
+/-- Within a step the JoinGroup request is the LAST observation: every `consumerShutdown` /
+    `consumerStop` of that step happened before it (monitor `joinLast`; closes the step-granularity
+    gap of `C16_join_after_drain`, which looks at the snapshot after the step). -/
+theorem C16_join_last (cfg : Cfg) (evs : List Ev) : joinLast (toMSteps (run cfg evs)) = true :=
+  joinLast_run cfg evs
+
+/-- A consumer record's identity is fixed at its start: every partition consumer the group holds a
+    record of was started by a `consumerStart` observation carrying exactly the record's topic,
+    partition, generation and member id — no step ever rewrites them. -/
+theorem C16_identity_fixed_at_start (cfg : Cfg) (evs : List Ev) : ∀ c ∈ (final cfg evs).cons,
+    ∃ off, Ob.consumerStart c.cid c.topic c.part c.gen c.member off ∈ allObs (run cfg evs) :=
+  ident_from_start cfg evs
+
 /-- **Composition with the consumer package** (`Afkak.Consumer`, properties C02/C03/C13/C14): for ANY
     group history, any consumer record `c` the group holds and ANY run of the consumer model taken
     as that consumer's behaviour, every commit request it emits goes on the wire with the
     (generation, member id, partition) the consumer was STARTED with — the very `consumerStart`
     observation is in the group's trace — and whenever the consumer is still running that pair is
     the member's CURRENT generation and member id and the partition is currently assigned.
+    NOT counted as an obligation: the first conjunct is true by construction of the tagging function
+    `wireCommits` (the Lean content is `C16_identity_fixed_at_start` + `C16_fenced`; that the code sends these
+    ids rests on the source check and on the full-stack stage's comparison of OffsetCommit identities).
     (`wireCommits` tags the consumer model's `commitReq` with the construction-time
     `commit_generation_id` / `commit_consumer_id`; that `consumer.py` assigns them only in
     `__init__`, sends them in `_send_commit_request`, and that `on_join_complete` passes the member's
@@ -161,6 +185,15 @@ example : (final exCfg (exStable ++ [.stop])).stopping = false ∧
 example : ((final exCfg (exStable ++ [.advance 5, .fire 0 none, .hbDone (.err .illegalGeneration)])).cons.map (·.phase)) =
     [.stopped, .stopped] := by decide +kernel
 
+/-- The strict reading of "after stop only the leave" is FALSE of the code (known finding
+    `group-requests-during-stop-drain`): a stable member with two consumers; `stop()` starts draining
+    them; the heartbeat timer fires during the drain and a heartbeat goes out. -/
+theorem C16_strict_after_stop_counterexample : ¬ Open.C16_after_stop_called_only_leave := by
+  intro h
+  have := h exCfg (exStable ++ [.stop, .advance 5, .fire 0 none])
+  revert this
+  decide +kernel
+
 /-! Non-vacuity of the composition: the first consumer of `exStable`, behaving as a consumer-model run
 that processes offset 42 and auto-commits it, puts exactly one commit on the wire — with generation 5,
 member 1, its own partition. -/
@@ -182,16 +215,18 @@ C16_mid_join_no_running
 C16_eviction_stops_first
 C16_after_stop_only_leave
 C16_stopping_quiesced
-C16_one_join_coroutine
 C16_eviction_table
 C16_fenced_trace
 C16_join_after_drain
 C16_one_join
 C16_heartbeat_only_stable
-C16_commit_fencing
-C16_commit_identity_source
+C16_identity_fixed_at_start
+C16_heartbeat_ids
+C16_join_last
+C16_strict_after_stop_counterexample
 C16_no_join_after_stop_called
 -/
 /- OPEN_STATEMENTS
 C16_starts_with_join_ids
+C16_after_stop_called_only_leave
 -/
